@@ -1597,6 +1597,9 @@ def run(ctx):
         compare_with_model(ctx, pending)
     ctx.extra["violation_counts"] = dict(sorted(seen.items()))
     ctx.extra["driver_compared_sequences"] = len(pending) if use_driver else 0
+    # MP4Tags, ASFTags and EasyMP4Tags against their Lean instances (Model/Dict{K,Mp4,Asf,EasyMp4}.lean, Props/C16_*.lean)
+    import dict_tie_x
+    dict_tie_x.run(ctx)
 
 
 def compare_with_model(ctx, pending):
